@@ -552,7 +552,8 @@ class Interp:
             if f == "line_number":
                 return str(self.pos)
             if f == "count_lines":
-                return str(self.data_count)
+                # docs/functions/print.md: "the current line being processed" (1-based)
+                return str(self.pos + 1)
             if f == "count_scans":
                 return str(self.res.scan_count)
             if f == "count_matches":
